@@ -358,9 +358,10 @@ def tasks(tier, seed=0):
         for pre in range(3):
             for start in range(3):
                 ts.append(("protocol_task", dict(graph=g, model=mdl, pre_fixed=pre, start_fixed=start)))
-    layouts = [((2,), (2,), False), ((2, 2), (2,), False), ((2, 2), (2,), True), ((2, 1), (2,), False)]
+    # (2, 2, 2) with a (2,) mask: a value with two more axes than the mask whose last axis has the size of the individual axis
+    layouts = [((2,), (2,), False), ((2, 2), (2,), False), ((2, 2), (2,), True), ((2, 1), (2,), False), ((2, 2, 2), (2,), True), ((2, 2, 2), (2,), False)]
     if tier == "thorough":
-        layouts += [((2, 2, 2), (2,), True), ((3, 2), (3,), False), ((2, 2), (2, 2), False)]
+        layouts += [((3, 2), (3,), False), ((2, 2), (2, 2), False), ((3, 2, 3), (3,), False)]
     for lay in layouts:
         ts.append(("exact_task", dict(layout=lay, finite_only=True)))
         ts.append(("exact_task", dict(layout=lay, finite_only=False)))
